@@ -194,3 +194,80 @@ class _DeMorgan(ast.NodeTransformer):
 
 TRANSFORMS["temporaries"] = _apply(_Temporaries)
 TRANSFORMS["de-morgan"] = _apply(_DeMorgan)
+
+
+class _AugAssign(ast.NodeTransformer):
+    """x op= e  ->  x = x op e  for plain-name targets (attribute / subscript targets stay: evaluation order of the target)."""
+
+    def visit_AugAssign(self, n):
+        self.generic_visit(n)
+        if isinstance(n.target, ast.Name):
+            return ast.copy_location(ast.Assign(targets=[ast.Name(n.target.id, ast.Store())],
+                                                value=ast.BinOp(ast.Name(n.target.id, ast.Load()), n.op, n.value)), n)
+        return n
+
+
+class _ElseAfterReturn(ast.NodeTransformer):
+    """if c: ...; return x  else: B   ->   if c: ...; return x ; B   (the else body is hoisted after an if whose body always
+    leaves), and the converse is not applied.  Also: `elif` chains are kept."""
+
+    @staticmethod
+    def _leaves(body):
+        return bool(body) and isinstance(body[-1], (ast.Return, ast.Raise, ast.Continue, ast.Break))
+
+    def _fix(self, stmts):
+        out = []
+        for st in stmts:
+            if isinstance(st, ast.If) and st.orelse and self._leaves(st.body) and not (len(st.orelse) == 1 and isinstance(st.orelse[0], ast.If)):
+                tail = st.orelse
+                st.orelse = []
+                out.append(st)
+                out.extend(tail)
+            else:
+                out.append(st)
+        return out
+
+    def generic_visit(self, node):
+        super().generic_visit(node)
+        for f in ("body", "orelse", "finalbody"):
+            v = getattr(node, f, None)
+            if isinstance(v, list) and v and isinstance(v[0], ast.stmt):
+                setattr(node, f, self._fix(v))
+        return node
+
+
+class _CondTemp(ast.NodeTransformer):
+    """if <compound test>: ...  ->  _c = <test>; if _c: ...   inside function bodies (tests that are bare names / constants stay)."""
+
+    def __init__(self):
+        self.k = 0
+
+    def _fix(self, stmts):
+        out = []
+        for st in stmts:
+            if isinstance(st, ast.If) and not isinstance(st.test, (ast.Name, ast.Constant)) and not any(
+                    isinstance(x, (ast.NamedExpr, ast.Await, ast.Yield, ast.YieldFrom)) for x in ast.walk(st.test)):
+                self.k += 1
+                nm = f"_cond{self.k}_"
+                out.append(ast.copy_location(ast.Assign(targets=[ast.Name(nm, ast.Store())], value=st.test), st))
+                st.test = ast.Name(nm, ast.Load())
+            out.append(st)
+        return out
+
+    def visit_FunctionDef(self, node):
+        self.generic_visit(node)
+        return node
+
+    def generic_visit(self, node):
+        super().generic_visit(node)
+        if isinstance(node, (ast.FunctionDef, ast.For, ast.While, ast.If, ast.With, ast.Try)):
+            for f in ("body", "orelse", "finalbody"):
+                v = getattr(node, f, None)
+                if isinstance(v, list) and v and isinstance(v[0], ast.stmt) and not (f == "orelse" and isinstance(node, ast.If) and len(v) == 1 and isinstance(v[0], ast.If)):
+                    setattr(node, f, self._fix(v))
+        return node
+
+
+TRANSFORMS["augassign"] = _apply(_AugAssign)
+TRANSFORMS["else-after-return"] = _apply(_ElseAfterReturn)
+TRANSFORMS["cond-temp"] = _apply(_CondTemp)
